@@ -1242,10 +1242,29 @@ def rule_fromstr(ctx):
                 ctx.check(R, "AnalysisRunner::%s/rebuilt-runner-keeps-the-curve" % f["name"], okc, "a runner is built from `self` with curve = %s and base %s: the curve chosen on the command line is replaced by the default" % (fl.get("curve"), rest), site(RUNF, x))
             if x["k"] == "Assign" and re.fullmatch(r"self\.curve", render(x["l"]).replace(" ", "")):
                 ctx.bad(R, "AnalysisRunner::%s/curve-reassigned" % f["name"], "self.curve is assigned outside the constructor", site(RUNF, x))
-    gens = [c for q, f in fns_in_file(RUNF) if "AnalysisRunner" in q and f.get("body") and "tests" not in q for c in calls(f["body"], "generate_cfg")]
-    ctx.floor(R, "generate_cfg call sites", len(gens), 2)
-    for c in gens:
-        ctx.check(R, "generate_cfg/gets-the-runner's-curve", len(c["args"]) == 3 and render(strip(c["args"][1])).replace(" ", "") in ("self.curve", "&self.curve"), "curve argument: %s" % (render(c["args"][1]) if len(c["args"]) > 1 else "?"), site(RUNF, c))
+    hosts = [(q, f) for q, f in fns_in_file(RUNF) if f.get("body") and "tests" not in q and f["name"] != "generate_cfg"]
+    gens = [(f, c) for q, f in hosts for c in calls(f["body"], "generate_cfg")]
+    ctx.floor(R, "generate_cfg call sites", len(gens), 1)
+
+    def is_runner_curve(e_):
+        return render(strip(e_)).replace(" ", "") in ("self.curve", "&self.curve")
+
+    for f, c in gens:
+        arg = c["args"][1] if len(c["args"]) == 3 else None
+        okc = arg is not None and is_runner_curve(arg)
+        how = "curve argument: %s" % (render(arg) if arg is not None else "?")
+        if arg is not None and not okc:
+            # a helper that is handed the curve: every call of the helper passes the runner's curve in that position
+            pn = [i["pat"]["name"] for i in f["sig"]["inputs"] if not i.get("self") and i["pat"]["k"] == "PIdent"]
+            a0 = strip(arg)
+            while a0["k"] in ("Ref", "Paren"):
+                a0 = strip(a0["e"])
+            if a0["k"] == "Path" and a0["path"] in pn:
+                pos = pn.index(a0["path"])
+                sites_ = [x for q2, f2 in hosts for x in walk(f2["body"]) if (x["k"] == "Call" and x["func"]["k"] == "Path" and last(x["func"]["path"]) == f["name"]) or (x["k"] == "MethodCall" and x["method"] == f["name"])]
+                okc = bool(sites_) and all(len(x["args"]) > pos and is_runner_curve(x["args"][pos]) for x in sites_)
+                how = "the helper `%s` is handed the curve by %d caller(s): %s" % (f["name"], len(sites_), [render(x["args"][pos])[:30] if len(x["args"]) > pos else "?" for x in sites_])
+        ctx.check(R, "generate_cfg/gets-the-runner's-curve", okc, how, site(RUNF, c))
     g = find_fn(RUNF, "generate_cfg")
     if g is None:
         ctx.missing(R, "generate_cfg")
